@@ -482,10 +482,10 @@ def check_buildoutput(rep, prog):
               "the same displayed name (e.g. two different unrecognised ids, both 'Unknown') overwrite each other" % (
                   [repr(k)[:80] for k in cnt_keys], name))
     # first pass: counts keyed by the same expression (modulo loop index)
-    firsts = [l for l in loops if l is not L]
-    if firsts:
-        L1 = firsts[0]
-        st1 = [e for e in I.events[L1.events[0]:L1.events[1]] if e.kind == "dict_store"]
+    firsts = [l for l in I.loops.values() if l is not L and
+              any(e.kind == "dict_store" and e.data[0] != out for e in I.events[l.events[0]:l.events[1]])]
+    for L1 in firsts:
+        st1 = [e for e in I.events[L1.events[0]:L1.events[1]] if e.kind == "dict_store" and e.data[0] != out]
         k1 = {subst(e.data[1], {L1.idx: L.idx}) for e in st1}
         rep.check(k1 == {name} or not st1, "C01.R5.naming", "counting pass uses the same name expression", where, L1.node,
                   "counting pass keys %s differ from naming key %r" % ([repr(k)[:80] for k in k1], name), node=L1.node)
